@@ -996,6 +996,16 @@ class Interp:
             return Num(Expr.atom(("sym", "pi")))
         if p.endswith("f64::EPSILON"):
             return Num(Expr.atom(("sym", "eps")))
+        # a const item of the crate stands for its initialiser
+        b = self.thir.get(e.get("full") or p) or self.thir.get(p)
+        if b is not None and not b.get("params") and self.depth < self.max_depth:
+            self.depth += 1
+            try:
+                return self.eval(b["body"], Interp.Env())
+            except Undecided:
+                pass
+            finally:
+                self.depth -= 1
         return Num(Expr.atom(("sym", p.split("::")[-1])))
 
     def e_const_param(self, e, env):
